@@ -231,6 +231,10 @@ var iptAddrs = []string{"10.1.1.1/32", "10.1.1.2/32", "10.1.1.0/24", "10.1.2.0/2
 	"10.1.1.3/32", "10.1.1.22/32", "10.1.1.23/32", "10.20.0.0/22", "10.20.0.0/23"}
 var iptPorts = [][2]int{{22, 22}, {80, 80}, {123, 123}, {1024, 65535}, {0, 1023}, {3000, 4000}, {8080, 8080}, {10000, 65535}, {80, 81}}
 var iptIfaces = []string{"eth0", "eth1"}
+// log prefixes ("" = none); those with other characters than letters,
+// digits, '_' and '-' are printed in quotes by iptables-save
+var logPrefixes = []string{"", "", "", "fwlog", "fw_in", "fw#in", "fw#out", "fw#", "drop:", "n#1"}
+
 var iptUserChains = []string{"c1", "c2", "c3", "eth0_in", "droplog"}
 
 // pct is true with probability n/100; the draw shrinks towards false.
@@ -367,6 +371,7 @@ func genRule(rt *rapid.T, risky bool, table, chain string, builtin bool, later [
 		case k < 90:
 			r.Jump = "LOG"
 			r.LogLevel = rapid.SampledFrom([]int{7, 7, 7, 6, 5, 3}).Draw(rt, "logLevel")
+			r.LogPrefix = rapid.SampledFrom(logPrefixes).Draw(rt, "logPrefix")
 		case k < 95:
 			r.Jump, r.RejectWith = "REJECT", rapid.SampledFrom([]string{"icmp-host-prohibited", "icmp-net-unreachable"}).Draw(rt, "rejectWith")
 		case !builtin:
@@ -514,7 +519,11 @@ func editRuleset(rt *rapid.T, risky bool, rs *Ruleset, op string) string {
 			case r.Jump == "DROP":
 				r.Jump = "ACCEPT"
 			case r.Jump == "LOG":
-				r.LogLevel = rapid.SampledFrom([]int{7, 6, 5, 3}).Draw(rt, "logLevel")
+				if rapid.Bool().Draw(rt, "logWhat") {
+					r.LogLevel = rapid.SampledFrom([]int{7, 6, 5, 3}).Draw(rt, "logLevel")
+				} else {
+					r.LogPrefix = rapid.SampledFrom(logPrefixes).Draw(rt, "logPrefix")
+				}
 			case r.Jump == "MARK":
 				r.SetMark.Val++
 				r.SetMark.Mask = 0xffffffff
